@@ -15,6 +15,8 @@ import (
 	abci "github.com/cometbft/cometbft/abci/types"
 	sdk "github.com/cosmos/cosmos-sdk/types"
 	authsigning "github.com/cosmos/cosmos-sdk/x/auth/signing"
+	authtypes "github.com/cosmos/cosmos-sdk/x/auth/types"
+	govv1 "github.com/cosmos/cosmos-sdk/x/gov/types/v1"
 	"github.com/cosmos/cosmos-sdk/x/authz"
 	upgradetypes "github.com/cosmos/cosmos-sdk/x/upgrade/types"
 	aoltypes "github.com/medibloc/panacea-core/v2/x/aol/types"
@@ -115,6 +117,7 @@ type BlockRec struct {
 	EndH     string // hash of EndBlock events + validator updates
 	AppHash  []byte
 	Plan     *upgradetypes.Plan // scheduled inside this block (takes effect at Height+1)
+	PlanViaGov bool // the plan was put in place by a governance proposal (x/gov executed MsgSoftwareUpgrade), not by the harness
 	FlatHash string
 	Panel    []PanelReq
 	PanelH   string
@@ -600,6 +603,23 @@ func (e *Exec) endAndCommitR0(blk *Block, rec *BlockRec, isUpgradeBlock bool) {
 	burnAddr, _ := sdk.AccAddressFromBech32(BurnAddress)
 	pre := e.bankSnapshot(ctx, r0.Node)
 	spendable := r0.App.BankKeeper.SpendableCoins(ctx, burnAddr)
+	// accounts that x/gov's EndBlocker will pay in this block (deposits of proposals whose voting or deposit period ends
+	// now go back to their depositors): those movements are not the burn's
+	govTouched := map[string]bool{}
+	func() {
+		defer func() { recover() }()
+		for _, p := range r0.App.GovKeeper.GetProposals(ctx) {
+			ends := (p.VotingEndTime != nil && p.Status == govv1.StatusVotingPeriod && !p.VotingEndTime.After(blk.Time)) ||
+				(p.DepositEndTime != nil && p.Status == govv1.StatusDepositPeriod && !p.DepositEndTime.After(blk.Time))
+			if !ends {
+				continue
+			}
+			govTouched[sdk.AccAddress(authtypes.NewModuleAddress("gov")).String()] = true
+			for _, d := range r0.App.GovKeeper.GetDeposits(ctx, p.Id) {
+				govTouched[d.Depositor] = true
+			}
+		}
+	}()
 	var endRes abci.ResponseEndBlock
 	_, halt := r0.guard("EndBlock", func() { endRes = r0.App.EndBlock(abci.RequestEndBlock{Height: h}) })
 	if halt != nil {
@@ -615,7 +635,7 @@ func (e *Exec) endAndCommitR0(blk *Block, rec *BlockRec, isUpgradeBlock bool) {
 	}
 	ctx = r0.DeliverCtx()
 	post := e.bankSnapshot(ctx, r0.Node)
-	e.checkBurn(h, burnAddr, spendable, pre, post, ctx, r0.Node)
+	e.checkBurn(h, burnAddr, spendable, pre, post, ctx, r0.Node, govTouched)
 	if hs := CustomDumpHashes(r0.DeliverStores()); !sameHashes(preHashes, hs) {
 		e.viol("C17", "custom_state.changed_in_endblock", "", "custom stores changed during EndBlock(%d): %v", h, changedStores(preHashes, hs))
 		e.resync(r0.DeliverStores())
@@ -639,6 +659,19 @@ func (e *Exec) endAndCommitR0(blk *Block, rec *BlockRec, isUpgradeBlock bool) {
 	r0.Applied = h
 	rec.AppHash = cr.Data
 	e.Trace.Ev("block h=%d committed apphash=%x txs=%d", h, cr.Data, len(rec.B.Txs))
+	if rec.Plan == nil {
+		// a plan that governance put in place (MsgSoftwareUpgrade executed by x/gov in some EndBlock) and that is due in
+		// the next block: from here on it is treated like a plan scheduled by the harness
+		func() {
+			defer func() { recover() }()
+			if plan, ok := r0.App.UpgradeKeeper.GetUpgradePlan(r0.App.NewContext(true, e.Env.Header(blk))); ok && plan.Height == h+1 {
+				p := plan
+				rec.Plan, rec.PlanViaGov = &p, true
+				e.Stats.Inc("fault.upgrade.scheduled_by_governance")
+				e.Trace.Ev("upgrade plan %s (governance) due at height %d", plan.Name, plan.Height)
+			}
+		}()
+	}
 	if rec.Plan != nil {
 		for _, r := range e.R {
 			e.dumpUpgradeInfo(r, rec.Plan)
@@ -653,7 +686,7 @@ func (e *Exec) dumpUpgradeInfo(r *Replica, plan *upgradetypes.Plan) {
 }
 
 // checkBurn: C07 around the EndBlock of one block.
-func (e *Exec) checkBurn(h int64, burnAddr sdk.AccAddress, spendableBefore sdk.Coins, pre, post *bankSnap, ctx sdk.Context, n *Node) {
+func (e *Exec) checkBurn(h int64, burnAddr sdk.AccAddress, spendableBefore sdk.Coins, pre, post *bankSnap, ctx sdk.Context, n *Node, govTouched map[string]bool) {
 	ba := burnAddr.String()
 	// 1. spendable balance of the sink is zero in every denomination after EndBlock
 	after := n.App.BankKeeper.SpendableCoins(ctx, burnAddr)
@@ -704,6 +737,10 @@ func (e *Exec) checkBurn(h int64, burnAddr sdk.AccAddress, spendableBefore sdk.C
 	// 3. no other account's balance is changed by the burn
 	for k, ch := range diffSnap(pre.Bal, post.Bal) {
 		if strings.HasPrefix(k, ba+"|") {
+			continue
+		}
+		if govTouched[k[:strings.Index(k, "|")]] {
+			e.Stats.Inc("probe.endblock.gov_refund")
 			continue
 		}
 		e.viol("C07", "burn.other_balance_changed", "burn", "EndBlock(%d): balance %s changed %s -> %s", h, k, ch[0], ch[1])
